@@ -2,6 +2,7 @@ import Xp.Base.JsonIO
 import Xp.Model.C17
 import Xp.Model.C17Rec
 import Xp.Model.C17ResF
+import Xp.Model.C17Glue
 /-
 C17 driver: parses one scenario, runs the model, prints the observation in the
 canonical form of harness/main/c17*.go. Never used in a theorem.
@@ -361,6 +362,50 @@ def recwHandler (scn : Json) : Json × Bool × String :=
     (r.1, acc.2.1 ++ [out], acc.2.2 && decide (r.1.seen.writes ≤ 1))) (initWorld scn, [], true)
   (Json.mkObj [("steps", Json.arr outs.toArray)], ok, if ok then "" else "C17:model-more-than-one-package-written")
 
+def optJson : Option String → Json
+  | some s => .str s
+  | none => .null
+
+def metaDepOf (j : Json) : MetaDep :=
+  ⟨optStr j "apiVersion", optStr j "kindf", optStr j "package", optStr j "provider", optStr j "configuration",
+   optStr j "function", str j "version"⟩
+
+/-- the glue scenarios: meta dependsOn ↦ lock dependencies, the revision's own lock entry,
+NewPackage / NewPackageList for every recorded dependency -/
+def glueHandler (scn : Json) : Json × Bool × String :=
+  let refs : List (String × String × String) := (arr scn "refs").map fun j => (str j "in", str j "str", str j "ident")
+  let image := str scn "image"
+  let version := str scn "version"
+  let tbl := Xp.Gen.c17KindTable
+  let ty := match nat scn "pkgKind" with
+    | 1 => Xp.Gen.c17TypeConfiguration
+    | 2 => Xp.Gen.c17TypeFunction
+    | _ => Xp.Gen.c17TypeProvider
+  let (gv, kind) := ((tbl.find? (fun t => t.1 == ty)).map (·.2)).getD ("", "")
+  let none' (err : String) : Json := Json.mkObj [("err", .str err), ("recorded", .bool false), ("source", .str ""),
+    ("version", .str ""), ("selfApiVersion", .str ""), ("selfKind", .str ""), ("deps", Json.arr #[]), ("new", Json.arr #[])]
+  match metaDepsToLock ((arr scn "deps").map metaDepOf) with
+  | none => (none' "invalidDependency", true, "")
+  | some deps =>
+    match refs.lookup ("|" ++ image) with
+    | none => (none' "parseRef", true, "")
+    | some (refStr, ident) =>
+      let self := selfEntry gv kind "rev" refStr ident deps
+      let depsJ := self.deps.map fun d => Json.mkObj [("pkg", .str d.pkg), ("apiVersion", optJson d.apiVersion),
+        ("kindf", optJson d.kind), ("type", optJson d.type), ("con", .str d.con)]
+      let newJ := self.deps.filterMap fun d =>
+        match refs.lookup ("xpkg.io|" ++ d.pkg) with
+        | none => none
+        | some (dStr, _) =>
+          match newPackage tbl d.fields version dStr, newPackageList tbl d.fields with
+          | some (a, k, img), some (la, lk) => some (Json.mkObj [("err", .bool false), ("apiVersion", .str a), ("kindf", .str k),
+              ("image", .str img), ("listApiVersion", .str la), ("listKind", .str lk)])
+          | _, _ => some (Json.mkObj [("err", .bool true), ("apiVersion", .str ""), ("kindf", .str ""),
+              ("image", .str ""), ("listApiVersion", .str ""), ("listKind", .str "")])
+      (Json.mkObj [("err", .str ""), ("recorded", .bool true), ("source", .str self.source), ("version", .str self.version),
+        ("selfApiVersion", .str self.apiVersion), ("selfKind", .str self.kind), ("deps", Json.arr depsJ.toArray),
+        ("new", Json.arr newJ.toArray)], true, "")
+
 def handler : Handler := fun scn =>
   match str scn "kind" with
   | "dag" => .ok (dagHandler scn)
@@ -369,6 +414,7 @@ def handler : Handler := fun scn =>
   | "resolve" => .ok (resHandler scn)
   | "reconcile" => .ok (recHandler scn)
   | "recw" => .ok (recwHandler scn)
+  | "glue" => .ok (glueHandler scn)
   | k => .error s!"unknown scenario kind {k}"
 
 end Xp.C17
